@@ -188,7 +188,10 @@ def get_solution(
             reverse = rxn.reverse_id
             rxn_index.append(forward)
             fluxes[i] = var_primals[forward] - var_primals[reverse]
-            reduced[i] = var_duals[forward] - var_duals[reverse]
+            # The reverse variable's column is the negated forward column, its
+            # reduced cost the negated forward one: the difference would be twice
+            # the reduced cost of the net flux.
+            reduced[i] = var_duals[forward]
         met_index = []
         constr_duals = model.solver.shadow_prices
         for i, met in enumerate(metabolites):
